@@ -86,10 +86,11 @@ def one(arg):
     idx_kind = seed % 3
     if idx_kind == 1: X.index = [i * 2 + 100 for i in range(n)]; y.index = X.index           # an index that is not 0..n-1 (e.g. rows of a train/test split)
     if idx_kind == 2: X.index = ['r%03d' % i for i in range(n)]; y.index = X.index
-    lit = dict(levels=levels, columns={f: [None if isnan(v) else v for v in rs] for f, rs in cols.items()}, min_freq=mf, unknown_handling=handling, float_codes=float_codes)
+    lit = dict(levels=levels, columns={f: [None if isnan(v) else v for v in rs] for f, rs in cols.items()}, min_freq=mf, unknown_handling=handling, float_codes=float_codes, str_nan=('MISSING' if seed % 4 == 2 else '__NAN__'))
     def rec(clause, ok, msg, extra=None): recs.append((clause, bool(ok), dict(lit, **(extra or {})) if not ok else dict(seed=seed), msg))
     try:
-        d = ChainedDiscretizer(qualitative_features=list(cols), chained_orders=chained_orders_arg(levels), min_freq=mf, unknown_handling=handling, copy=True)
+        kw = dict(str_nan='MISSING') if seed % 4 == 2 else {}          # a custom missing-value marker every fourth case
+        d = ChainedDiscretizer(qualitative_features=list(cols), chained_orders=chained_orders_arg(levels), min_freq=mf, unknown_handling=handling, copy=True, **kw)
     except Exception as e:
         rec('ChainedDiscretizer.__init__#raises.nothing_on_valid_hierarchy', False, '__init__ raised %s: %s' % (type(e).__name__, str(e)[:150])); return recs
     all_values = leaves + [p for lvl in levels for p in lvl]
@@ -161,6 +162,12 @@ def one(arg):
             got = [order.get_group(X[f].iloc[i]) for i, v in enumerate(rows) if v in unknown]
             rec('ChainedDiscretizer.fit#post.unknown_values_merged_with_missing_values_when_drop', all(g == d.str_nan for g in got), 'groups of unknown values: %r' % (got,), F)
             rec('ChainedDiscretizer.transform#post.unknown_and_missing_values_share_one_output', len(merged_out) <= 1, 'unknown values were merged with the missing values but transform outputs %r for them' % (sorted(merged_out),), F)
+    # a value outside the hierarchy that was NOT seen at fit, in a new frame: refused (whatever unknown_handling: it has no group), never passed through or blanked
+    if r[0] == 'ok' and d.features:
+        f0 = d.features[0]; Xn = X.iloc[:3].copy()
+        Xn[f0] = pd.Series([9.0e8 + 77] * 3, dtype=float, index=Xn.index) if float_codes else pd.Series(['never_in_hierarchy'] * 3, dtype=object, index=Xn.index)
+        t2 = outcome(lambda: d.transform(Xn))
+        rec('ChainedDiscretizer.transform#raises.AssertionError.value_outside_the_hierarchy_unseen_at_fit', t2[0] == 'reject', 'transform of a frame holding a value outside the hierarchy (unseen at fit): %s%s' % (t2[0], (' -> %r' % t2[1][f0].tolist()) if t2[0] == 'ok' else ''), dict(feature=f0))
     if out[0] == 'ok': rec('ChainedDiscretizer.transform#frame.other_columns_untouched', series_list(out[1]['other']) == list(range(n)), 'other column changed')
     return recs
 
